@@ -311,6 +311,19 @@ pub fn extra_pool() -> Vec<File> {
             }
         }
     }
+    // inside parameterised rules: plain queries, named-rule references, nested calls
+    {
+        let base_rule = rule("rb", vec![vec![un(a(), UnOp::Exists, false)]]);
+        let pv = || vec![Part::Var("x".into())];
+        let p1 = Rule { name: "pa".into(), params: Some(vec!["x".into()]), when: None, lets: vec![], body: vec![vec![un(a(), UnOp::Exists, false)], vec![bin(pv(), BinOp::Eq, false, i(1))]] };
+        let p2 = Rule { name: "pb".into(), params: Some(vec!["x".into()]), when: None, lets: vec![], body: vec![vec![named("rb")], vec![un(pv(), UnOp::Exists, false)]] };
+        let p3 = Rule { name: "pc".into(), params: Some(vec!["x".into()]), when: None, lets: vec![], body: vec![vec![Clause::Call { not: false, name: "pa".into(), args: vec![Arg::Q(false, pv())], msg: None }]] };
+        let call = |n: &str, q: Query| Clause::Call { not: false, name: n.into(), args: vec![Arg::Q(false, q)], msg: None };
+        for (k, q) in [a(), vec![key("b")], vec![key("a"), Part::All]].into_iter().enumerate() {
+            out.push(File { lets: vec![], rules: vec![base_rule.clone(), p1.clone(), p2.clone(), p3.clone(), rule("r0", vec![vec![call("pa", q.clone())]]), rule("r1", vec![vec![call("pb", q.clone())], vec![lp[k].clone()]]), rule("r2", vec![vec![call("pc", q.clone()), lp[1].clone()]])], default: vec![] });
+        }
+        // (a named-rule reference inside a query block is not in the grammar)
+    }
     // rules that refer to each other in a cycle: an evaluation error in every order on the pinned tree (then nothing is
     // compared); if a tree gives them statuses, those must not depend on the order either
     for (na, nb) in [(true, true), (false, true), (false, false)] {
